@@ -205,6 +205,7 @@ def run(ctx):
     cfg0(ctx)
     binding(ctx)
     field(ctx)
+    scalar_saturation(ctx)
     polar(ctx)
     fallbacks(ctx)
     compositions(ctx)
@@ -336,6 +337,62 @@ def out(leaf):
     r = leaf.store.get(('ctx', 0))
     i = leaf.store.get(('ctx', 8))
     return (r[0] if r else X), (i[0] if i else Y)
+
+
+def scalar_saturation(ctx):
+    """CX-13: the real / imaginary scalar forms over sign / magnitude classes (lib/mag.py).  CX-2 shows that they equal the field
+    operation over the reals; a form that is equal there (x * (1/r) for x / r) can still overflow in an intermediate result.  For every
+    class of (re, im, r) the stored components are compared with the classes of the component-wise operation: a component that is
+    definitely NaN or infinite where the operation itself is definitely finite is a violation for every argument of the class."""
+    import itertools
+    import mag
+    rep = ctx.rep
+    E = (-1074, -1040, -1022, -600, -1, 0, 1, 600, 1000, 1022, 1023)
+    if ctx.tier == 'thorough':
+        E = tuple(sorted(set(range(-1074, 1024, 32)) | set(E)))
+    nz = [mag.binade(e, s_) for e in E for s_ in (1, -1)]
+    comp = nz + [mag.Z]
+    REF = {'a_complex_mul_real_': lambda a, b, r: (mag.mul(a, r), mag.mul(b, r)),
+           'a_complex_div_real_': lambda a, b, r: (mag.div(a, r), mag.div(b, r)),
+           'a_complex_mul_imag_': lambda a, b, r: (mag.neg(mag.mul(b, r)), mag.mul(a, r)),
+           'a_complex_div_imag_': lambda a, b, r: (mag.div(b, r), mag.neg(mag.div(a, r)))}
+    for name, ref in sorted([(n_, r_) for n_, r_ in REF.items()] + [(n_[:-1], r_) for n_, r_ in REF.items()]):
+        fn = ctx.fn('hdr_unit', name)
+        if fn is None:
+            rep.unk('CX-13', name, 'anchor vanished')
+            continue
+        loc = fn.loc(fn.entry.instrs[0])
+        inplace = name.endswith('_')
+        probe = {('ctx', 0): mag.binade(0), ('ctx', 1): mag.binade(0)}
+        # in place: (ctx, scalar); out of place: (ctx, z by value as two doubles, scalar)
+        mk = (lambda a, b, r: [('ptr', 'ctx'), r]) if inplace else (lambda a, b, r: [('ptr', 'ctx'), a, b, r])
+        if len(fn.params) != (2 if inplace else 4) or mag.run(fn, mk(mag.binade(0), mag.binade(0), mag.binade(0)), None, 0, probe) is None:
+            rep.unk('CX-13', name, 'not straight-line arithmetic over the operand and the scalar', loc=loc)
+            continue
+        worst, total, decided = [], 0, 0
+        for a, b, r in itertools.product(comp, comp, nz):
+            mem = {('ctx', 0): a, ('ctx', 1): b} if inplace else {}
+            mag.run(fn, mk(a, b, r), None, 0, mem)
+            mem.setdefault(('ctx', 0), mag.TOP)
+            mem.setdefault(('ctx', 1), mag.TOP)
+            want = ref(a, b, r)
+            total += 1
+            got = (mem[('ctx', 0)], mem[('ctx', 1)])
+            if mag.TOP not in got:
+                decided += 1
+            for k in (0, 1):
+                if (got[k] == mag.NAN or got[k][0] == 'inf') and want[k][0] in ('m', 'z'):
+                    worst.append((a, b, r, k, got[k], want[k]))
+                    break
+        if worst:
+            a, b, r, k, g, w = worst[0]
+            rep.bad('CX-13', name, 'for every %s, %s and scalar in %s the %s part becomes %s; the operation itself gives %s (%d of %d sign / magnitude classes)' % (
+                mag.show_class('re', a), mag.show_class('im', b), mag.show(r), ('real', 'imaginary')[k], mag.show(g), mag.show(w), len(worst), total),
+                loc=loc, key='%s: saturation' % name)
+        else:
+            rep.ok('CX-13', name, 'no sign / magnitude class of (re, im, scalar) turns a finite result into NaN or an infinity (%d classes, %d decided)' % (total, decided),
+                   loc=loc, sample={'fn': name, 'classes': total, 'decided': decided})
+    rep.floor('CX-13', 8)
 
 
 def field(ctx):
